@@ -55,6 +55,7 @@ def fragments(ctx):
     if mtx_a and mtx_b:
         near = C.chain_lines("4DFR", "A", 20, 12)
         out.append(("two-ligand-copies", near + [C.TER] + mtx_a + C.rename_chain(mtx_b, "B", "A")))
+    out.append(("frag-1HPX-A0+40", C.chain_lines("1HPX", "A", 0, 40) + [C.TER]))
     if ctx.thorough():
         out.append(("frag-2chains", C.chain_lines("1HPX", "A", 24, 4) + [C.TER] + C.chain_lines("1HPX", "B", 24, 4) + [C.TER]))
     return out
@@ -96,6 +97,13 @@ def run(ctx):
     rng = random.Random(ctx.seed)
     cases = []
     rels = []
+    # pairs scored non-iteratively ('N' in the working tree's interaction matrix) always list each other when they are
+    # hydrogen-bonded; for iterative pairs the listing depends on the computed pKa values and may legitimately change
+    from propka.parameters import Parameters
+    from propka.input import read_parameter_file
+    with runner.quiet():
+        _pm = read_parameter_file("propka.cfg", Parameters()).interaction_matrix
+    non_iterative = lambda t1, t2: _pm.get_value(t1, t2) == "N"  # noqa
     for name, lines in fragments(ctx):
         text = C.join(lines)
         ids = []
@@ -107,9 +115,15 @@ def run(ctx):
         if base.exc is not None:
             ctx.violation(f"run:exception:{name}", repr(base.exc), {"pdb": text})
             continue
-        subsets = [s for n in range(0, len(ids) + 1) for s in itertools.combinations(ids, n)]
-        if not ctx.thorough():
-            subsets = [s for s in subsets if len(s) in (1, len(ids) - 1, len(ids))] + rng.sample(subsets, 12)
+        if len(ids) <= 10:
+            subsets = [s for n in range(0, len(ids) + 1) for s in itertools.combinations(ids, n)]
+            if not ctx.thorough():
+                subsets = [s for s in subsets if len(s) in (1, len(ids) - 1, len(ids))] + rng.sample(subsets, 12)
+        else:
+            subsets = [tuple(ids)] + [(r,) for r in ids[:: 1 if ctx.thorough() else 3]]
+            subsets += [tuple(r for r in ids if r != x) for x in ids[::7]]
+            for _ in range(60 if ctx.thorough() else 10):
+                subsets.append(tuple(sorted(rng.sample(ids, rng.randrange(2, len(ids))), key=ids.index)))
         for sub in subsets:
             if not sub:
                 continue
@@ -124,7 +138,7 @@ def run(ctx):
                 continue
             ctx.nontriv((name, lst))
             kind = "SameAll" if len(sub) == len(ids) else "EnvKept"
-            rels.append(relations.relate(kind, base, text, ri, text, present=True, meta=dict(meta, what=kind)))
+            rels.append(relations.relate(kind, base, text, ri, text, present=True, sc_filter=non_iterative, meta=dict(meta, what=kind)))
             if len(sub) <= 2:
                 lst2 = lst + ",Z:999,A:998B"
                 ru = runner.run(text, ["-q", "-i", lst2])
@@ -141,7 +155,7 @@ def run(ctx):
         for rec, m in lst[:5]:
             ctx.violation(f"titrate-only:census:{inv}:{m['input'].split(' -i ')[0]}", f"{inv} violated on {m}",
                           {"pdb": texts[m["input"]][1], "optargs": m["optargs"]})
-    rv = relations.validate(ctx, rels, ["SameConfs", "SameAll", "EnvKept"], "titrate-only vs no option")
+    rv = relations.validate(ctx, rels, ["SameConfs", "SameAll", "EnvKept", "PartnersKept"], "titrate-only vs no option")
     seen = set()
     for inv, lst in sorted(rv.items()):
         for rel in lst:
